@@ -226,6 +226,8 @@ structure Host where
   pools : Nat → Option Nat
   attached : Nat → List Nat
   sectors : Nat → Bool
+  /-- roots for which the sector store's `HasSector` currently returns an error (a failing dependency) -/
+  sectorErr : Nat → Bool := fun _ => false
 
 def Host.init (hostKey now tip : Nat) : Host :=
   { hostKey, now, tip, contracts := fun _ => none, accounts := fun _ => 0,
@@ -393,6 +395,11 @@ def lockForRevision (h : Host) (cid : Nat) : Except Cls CState :=
 def hasEvents (roots : List Nat) : List Ev := roots.map .has
 def acceptedRoots (h : Host) (roots : List Nat) : List Nat := roots.filter h.sectors
 
+/-- the roots `HasSector` is asked for up to and including the first one whose lookup fails -/
+def storeFailure (h : Host) : List Nat → List Nat → Option (List Nat)
+  | [], _ => none
+  | r :: rs, asked => if h.sectorErr r then some (asked ++ [r]) else storeFailure h rs (asked ++ [r])
+
 /-- `RPCFreeSectorsRequest.Validate`, index part (`validation.go:85-95`) -/
 def indicesValid (sectors : Nat) : List Nat → List Nat → Bool
   | [], _ => true
@@ -436,6 +443,11 @@ def decideAppend (h : Host) (cid : Nat) (p : Prices) (chal : Sig) (sectors : Lis
       let ex := cs.c.body
       if !verify ex.renterKey (.challenge cid (ex.rev + 1)) chal then reject .badreq
       else
+        -- `if ok, err := s.sectors.HasSector(root); err != nil { return … }` (`server.go:366-369`): the
+        -- first root whose lookup fails ends the RPC, whatever the error is
+        match storeFailure h sectors [] with
+        | some asked => reject .hosterr (hasEvents asked)
+        | none =>
         let evs := hasEvents sectors
         let acc := acceptedRoots h sectors
         let flags := sectors.map fun r => if h.sectors r then 1 else 0
@@ -678,6 +690,8 @@ inductive Op where
   | renew (cid newcid : Nat) (c : Contract)
   /-- a sector reaches the store outside the RPCs (the harness stores it directly) -/
   | sector (root : Nat)
+  /-- the sector store starts / stops failing lookups of a root -/
+  | sectorErr (root : Nat) (failing : Bool)
   deriving Repr, Inhabited
 
 def formOk (h : Host) (cid : Nat) (c : Contract) : Bool :=
@@ -707,6 +721,7 @@ def stepOp (h : Host) : Op → Host × Out × List Ev
   | .tip n => ({ h with tip := n }, { cls := .ok }, [])
   | .time n => ({ h with now := n }, { cls := .ok }, [])
   | .sector r => ({ h with sectors := upd h.sectors r true }, { cls := .ok }, [])
+  | .sectorErr r b => ({ h with sectorErr := upd h.sectorErr r b }, { cls := .ok }, [])
   | .form cid c =>
     if formOk h cid c then
       ({ h with contracts := upd h.contracts cid (some { c := c, roots := [], renewed := false }) }, { cls := .ok }, [])
